@@ -100,3 +100,78 @@ pub fn self_test() -> Result<(), String> {
     }
     Ok(())
 }
+
+// ---------------------------------------------------------------------------
+// Process-spawn seam: `parol::try_format` runs `rustfmt <file>` after writing each Rust
+// file.  Process creation is serialised machine-wide in this sandbox (~0.9 ms each, no
+// parallel speed-up), so inside a simulated run the spawn of a program called "rustfmt"
+// is answered by the simulator itself: "a formatter that ran and changed nothing".
+// Everything else is passed to libc.  Comparing the *unformatted* bytes is the stricter
+// comparison (DESIGN §4.3).
+// ---------------------------------------------------------------------------
+
+pub static SPAWNS_STUBBED: AtomicU64 = AtomicU64::new(0);
+const FAKE_PID: libc::pid_t = 0x7fff_ff00;
+
+type SpawnFn = unsafe extern "C" fn(
+    *mut libc::pid_t,
+    *const libc::c_char,
+    *const libc::posix_spawn_file_actions_t,
+    *const libc::posix_spawnattr_t,
+    *const *mut libc::c_char,
+    *const *mut libc::c_char,
+) -> libc::c_int;
+type WaitFn = unsafe extern "C" fn(libc::pid_t, *mut libc::c_int, libc::c_int) -> libc::pid_t;
+
+/// # Safety
+/// libc contract of posix_spawnp.
+#[no_mangle]
+pub unsafe extern "C" fn posix_spawnp(
+    pid: *mut libc::pid_t,
+    file: *const libc::c_char,
+    file_actions: *const libc::posix_spawn_file_actions_t,
+    attrp: *const libc::posix_spawnattr_t,
+    argv: *const *mut libc::c_char,
+    envp: *const *mut libc::c_char,
+) -> libc::c_int {
+    if !file.is_null()
+        && std::ffi::CStr::from_ptr(file).to_bytes() == b"rustfmt"
+        && matches!(KEY.try_with(|k| k.get()), Ok(Some(_)))
+        && std::env::var_os("VERIF_REAL_RUSTFMT").is_none()
+    {
+        if !pid.is_null() {
+            *pid = FAKE_PID;
+        }
+        SPAWNS_STUBBED.fetch_add(1, Ordering::Relaxed);
+        return 0;
+    }
+    let real = libc::dlsym(libc::RTLD_NEXT, c"posix_spawnp".as_ptr());
+    if real.is_null() {
+        return libc::ENOSYS;
+    }
+    let real: SpawnFn = std::mem::transmute(real);
+    real(pid, file, file_actions, attrp, argv, envp)
+}
+
+/// # Safety
+/// libc contract of waitpid.
+#[no_mangle]
+pub unsafe extern "C" fn waitpid(
+    pid: libc::pid_t,
+    status: *mut libc::c_int,
+    options: libc::c_int,
+) -> libc::pid_t {
+    if pid == FAKE_PID {
+        if !status.is_null() {
+            *status = 0; // exited with code 0
+        }
+        return pid;
+    }
+    let real = libc::dlsym(libc::RTLD_NEXT, c"waitpid".as_ptr());
+    if real.is_null() {
+        *libc::__errno_location() = libc::ENOSYS;
+        return -1;
+    }
+    let real: WaitFn = std::mem::transmute(real);
+    real(pid, status, options)
+}
